@@ -47,6 +47,8 @@ def gen(rng, tier):
             yield Case("purity", [alpha, rs, q], big, "purity-" + q)
         for c in ("clone", "clonebag", "subalign", "selectsites", "transpose", "bootstrap", "unalign", "sample", "randsub"):
             yield Case("alias", [alpha, rs, c], big, "alias-" + c)
+        for mode in ("halves", "codon"):
+            yield Case("aliassplit", [alpha, rs, mode], big and L >= 3, "alias-split-" + mode)
 
 
 def matches(c):
